@@ -549,6 +549,7 @@ void World::run(const Plan &p, const std::string &d) {
     twin_safe = plan_is_twin(plan);
     blind = twin_safe && g_blind_twin;
     h5knob_set(s.cache_mode, s.sieve_mode);
+    { unsigned t = (unsigned) ((s.entropy >> 32) % 8); h5knob_tbuf(t == 0 ? 0 : (t < 5 ? 1 : 2)); }     // one run in eight keeps the default
     disk_set_perturb(s.entropy ^ 0x5151, s.perturb_pm);
     path = dir + "/f0.nix";
     disk_remove(path);
